@@ -46,6 +46,10 @@ def c13_1(ctx):
     raises = sym.exits_formula(w, ru.is_raise)
     if not writes:
         raise Undecided("distribute_from_split_pool writes no coin_value")
+    # with no output left to split the outputs as given must still be covered by the inputs
+    _plain = lambda o: "tx.txs_out" in o and "tx.unspents" in o and " < " in o and "fee" not in o and "len(" not in o
+    ctx.check(sym.exit_under(w, ru.is_raise, _plain) or sym.exit_under(w, ru.is_raise, _plain, positive=False), "funds-cover-fixed-outputs", ctx.where(f),
+              "distribute_from_split_pool never compares the sum of the outputs with the sum of the inputs on its own (only together with the number of outputs to split): fixed outputs that exceed the inputs are accepted")
     for e in writes:
         ctx.check(e.loops != () and not any(x.kind == "raise" and x.node is not None and any(l.node is y for l in e.loops for y in [l.node] if any(z is x.node for z in ast.walk(y))) for x in w.exits), "guards-before-writes", ctx.where(f, e.node),
                   "an insufficiency guard is evaluated inside the loop that writes the split amounts (a partially modified transaction could be left behind)")
